@@ -31,3 +31,20 @@ package signed
 //@   property C18
 //@   trusted crypto/x509 parsing is external; it allocates its result and changes nothing else
 //@   modifies nothing
+
+//@ func GenerateKey
+//@   property C16
+//@   trusted crypto/ecdsa key generation is external; it allocates its result and changes nothing else
+//@   ensures ok: err == nil ==> result0 != nil && fresh(result0)
+//@   ensures fail: err != nil ==> result0 == nil
+//@   modifies nothing
+
+//@ func MarshalPrivateKey
+//@   property C16
+//@   trusted crypto/x509 encoding is external; it allocates its result and changes nothing else
+//@   modifies nothing
+
+//@ func MarshalPublicKey
+//@   property C16
+//@   trusted crypto/x509 encoding is external; it allocates its result and changes nothing else
+//@   modifies nothing
